@@ -39,6 +39,7 @@ func checkC04(w *World, r *Report) {
 	r.Explanation += " Rules added in later rounds: (R04.6) no store into Token.Value is a concatenation: a token's value stays one piece of source, so an escaped delimiter never fuses with its neighbours into a text node holding a complete {{ … }}. (R04.7) no word is substituted for a different word; (R04.8) Parse succeeds only behind the parser. (R04.9) Render returns the buffer's text; (R04.10) the scanner's source is the text given."
 	r.Explanation += " Round 9: (R04.11) a function that switches the tokenizer's source restores it before every return."
 	r.Explanation += " Round 11: (R04.12) loaders return the bytes of the file; (R04.13) Parse gets the source unchanged."
+	r.Explanation += " Round 12: (R04.14) Write methods report the whole argument."
 	r.RuleText = "obligation = one transport step / one reader of a content field / one write into verbatim content; non-trivial = all"
 	r.Trusted = []string{"io.Writer implementations write the bytes they are given"}
 
